@@ -83,6 +83,8 @@ func (w *World) resolveType(pkg *types.Package, text string) (types.Type, string
 		return types.Typ[types.Bool], "Bool"
 	case "string", "Str":
 		return types.Typ[types.String], sortStr
+	case "error":
+		return types.Universe.Lookup("error").Type(), sortAny
 	case "RType":
 		return nil, sortRType
 	case "RValue":
@@ -263,6 +265,12 @@ func (e *Env) ident(name string) SVal {
 	s := e.s
 	if name == "$alloc" {
 		return SVal{t: e.alloc, gt: types.Typ[types.Int]}
+	}
+	if name == "$recovered" {
+		if s.recovered != nil {
+			return SVal{t: *s.recovered}
+		}
+		return SVal{t: Term{"any.nil", sortAny}}
 	}
 	if strings.HasPrefix(name, "$") {
 		if sort, ok := s.x.ghostVars[name]; ok {
@@ -622,6 +630,24 @@ func (e *Env) call(n *SCall) SVal {
 			return SVal{t: w.isCon(c, v), gt: boolT}
 		}
 		return SVal{t: w.unbox(c, v), gt: gt}
+	case "isA":
+		// isA(x, I): the dynamic type of interface value x implements interface I
+		v := e.rv(e.eval(n.Args[0]))
+		gt, _ := w.resolveType(e.pkg, specText(n.Args[1]))
+		if gt == nil || v.Sort != sortAny {
+			e.fail("isA(x, InterfaceType)")
+		}
+		if _, ok := gt.Underlying().(*types.Interface); !ok {
+			e.fail("isA: %s is not an interface type", specText(n.Args[1]))
+		}
+		return SVal{t: w.ifaceTest(v, gt), gt: boolT}
+	case "existed":
+		// the object existed in the pre-state
+		if e.old == nil {
+			e.fail("existed() needs a pre-state")
+		}
+		v := e.rv(e.eval(n.Args[0]))
+		return SVal{t: mkAnd(app("Bool", ">", v, intLit(0)), le(v, e.old.alloc)), gt: boolT}
 	case "box":
 		v := e.eval(n.Args[0])
 		if v.gt == nil {
@@ -651,6 +677,26 @@ func (e *Env) call(n *SCall) SVal {
 		hd, od := heapGet(e.s, e.heap, dom, false), heapGet(e.s, e.old.heap, dom, false)
 		hv, ov := heapGet(e.s, e.heap, val, false), heapGet(e.s, e.old.heap, val, false)
 		return SVal{t: mkAnd(mkEq(mkSelect(hd, at), mkSelect(od, at)), mkEq(mkSelect(hv, at), mkSelect(ov, at))), gt: boolT}
+	case "ret":
+		// ret(label, i): i-th result of the call that created the label
+		id, ok := n.Args[0].(*SIdent)
+		if !ok {
+			e.fail("ret(label, i)")
+		}
+		idx := 0
+		if len(n.Args) > 1 {
+			if lit, ok := n.Args[1].(*SInt); ok {
+				idx = int(lit.V)
+			}
+		}
+		sn, has := e.s.labels[id.Name]
+		if !has || idx >= len(sn.results) {
+			// not on this path: an arbitrary value; callers guard with reached()
+			return SVal{nil: true}
+		}
+		return sn.results[idx]
+	case "recovered":
+		return SVal{t: boolLit(e.s.recovered != nil), gt: boolT}
 	case "reached":
 		id, ok := n.Args[0].(*SIdent)
 		if !ok {
